@@ -10,7 +10,8 @@ from harness import common, synth
 
 
 def run_one(args):
-    seed, workdir = args
+    seed, workdir = args[0], args[1]
+    force_whole = len(args) > 2 and args[2]
     common.quiet_logging()
     import contextlib
     import io
@@ -45,9 +46,9 @@ def run_one(args):
         # region: a circle (or polygon) somewhere on the image, depth 12 (52" pixels < 120" image pixels)
         reg = Region(maxdepth=12)
         mode = rng.random()
-        if mode < 0.2:
+        if mode < 0.2 or force_whole:
             ra0, dec0 = w.all_pix2world([[shape[1] / 2.0, shape[0] / 2.0]], 0)[0]
-            if seed % 2:
+            if seed % 2 and not force_whole:
                 reg.add_circles(math.radians(ra0), math.radians(dec0), math.radians(5.0))
             else:                      # the whole sky, stored as coarse pixels (shallow region: cheap to demote)
                 reg = Region(maxdepth=6)
@@ -91,7 +92,7 @@ def run_one(args):
 def run(ctx, n, seeds=None):
     seeds = seeds if seeds is not None else [ctx.seed * 31337 + i for i in range(n)]
     with mp.Pool(min(16, max(1, len(seeds)))) as pool:
-        recs = pool.map(run_one, [(s, ctx.workdir) for s in seeds], chunksize=1)
+        recs = pool.map(run_one, [(s, ctx.workdir, k == 0) for k, s in enumerate(seeds)], chunksize=1)
     tf = os.path.join(ctx.workdir, "finder_region.json")
     common.dump_json(tf, [{k: v for k, v in r.items() if k not in ("cls", "seed")} for r in recs])
     res = ctx.tlc("FinderRegion_Trace", common.cfg(spec="Spec", post="BatchDone", deadlock=False),
